@@ -668,6 +668,7 @@ xar_read_header(struct archive_read *a, struct archive_entry *entry)
 	struct xar *xar;
 	struct xar_file *file;
 	struct xattr *xattr;
+	struct archive_string xattr_value;
 	int r;
 
 	xar = (struct xar *)(a->format->data);
@@ -801,11 +802,13 @@ xar_read_header(struct archive_read *a, struct archive_entry *entry)
 	/*
 	 * Read extended attributes.
 	 */
+	archive_string_init(&xattr_value);
 	xattr = file->xattr_list;
 	while (xattr != NULL) {
 		const void *d;
-		size_t outbytes = 0;
-		size_t used = 0;
+		size_t outbytes;
+		size_t used;
+		uint64_t remaining;
 
 		r = move_reading_point(a, xattr->offset);
 		if (r != ARCHIVE_OK)
@@ -814,10 +817,43 @@ xar_read_header(struct archive_read *a, struct archive_entry *entry)
 		    xattr->a_sum.alg, xattr->e_sum.alg);
 		if (r != ARCHIVE_OK)
 			break;
-		d = NULL;
-		r = rd_contents(a, &d, &outbytes, &used, xattr->length);
+		/*
+		 * The stored value can be spread over several read blocks
+		 * and can be larger than one decompression buffer, so
+		 * gather it piece by piece.
+		 */
+		archive_string_empty(&xattr_value);
+		remaining = xattr->length;
+		while (remaining > 0) {
+			d = NULL;
+			outbytes = 0;
+			used = 0;
+			r = rd_contents(a, &d, &outbytes, &used, remaining);
+			if (r != ARCHIVE_OK)
+				break;
+			if ((used == 0 && outbytes == 0) ||
+			    outbytes > xattr->size - archive_strlen(&xattr_value)) {
+				archive_set_error(&(a->archive),
+				    ARCHIVE_ERRNO_MISC,
+				    "Decompressed size error");
+				r = ARCHIVE_FATAL;
+				break;
+			}
+			if (archive_array_append(&xattr_value, d,
+			    outbytes) == NULL) {
+				archive_set_error(&(a->archive), ENOMEM,
+				    "Can't allocate memory for xattr");
+				r = ARCHIVE_FATAL;
+				break;
+			}
+			__archive_read_consume(a, used);
+			xar->offset += used;
+			remaining -= used;
+		}
 		if (r != ARCHIVE_OK)
 			break;
+		d = xattr_value.s;
+		outbytes = archive_strlen(&xattr_value);
 		if (outbytes != xattr->size) {
 			archive_set_error(&(a->archive), ARCHIVE_ERRNO_MISC,
 			    "Decompressed size error");
@@ -845,6 +881,7 @@ xar_read_header(struct archive_read *a, struct archive_entry *entry)
 		    xattr->name.s, d, outbytes);
 		xattr = xattr->next;
 	}
+	archive_string_free(&xattr_value);
 	if (r != ARCHIVE_OK) {
 		file_free(file);
 		return (r);
